@@ -464,6 +464,7 @@ def main(argv=None):
         s["nontrivial"] += res["nontrivial"]
         if str(res["shard"]).startswith("fuzz"):
             s["atheris_cases"] = s.get("atheris_cases", 0) + res["evals"]
+            s["atheris_nontrivial"] = s.get("atheris_nontrivial", 0) + res["nontrivial"]
         s["fps"].update(res["fps"])
         s["wall_s"] += res["wall"]
         for k, v in res["labels"].items():
@@ -491,7 +492,11 @@ def main(argv=None):
     low = []
     for name, s in per_sub.items():
         sub = find_sub(mod, name)
-        frac = s["nontrivial"] / max(1, s["evaluations"])
+        # the generator-health floor is about the Hypothesis strategies; byte-decoded atheris cases
+        # are reported (atheris_cases) but do not dilute it
+        h_evals = s["evaluations"] - s.get("atheris_cases", 0)
+        h_nt = s["nontrivial"] - s.get("atheris_nontrivial", 0)
+        frac = h_nt / max(1, h_evals) if h_evals > 0 else s["nontrivial"] / max(1, s["evaluations"])
         s["nontrivial_frac"] = round(frac, 4)
         if frac < sub.min_nontrivial_frac and not violations:
             low.append(f"{name}: non-trivial fraction {frac:.2f} < {sub.min_nontrivial_frac}")
